@@ -97,7 +97,7 @@ fn run_miri(sim_dir: &Path, target: &Path, prof: Profile, prop: &str, base: u64,
                     break;
                 }
                 let wseed = base.wrapping_mul(1000).wrapping_add(w);
-                let flags = format!("-Zmiri-many-seeds={}..{} -Zmiri-preemption-rate=0.05", base, base + seeds);
+                let flags = format!("-Zmiri-many-seeds={}..{} -Zmiri-preemption-rate=0.05 -Zmiri-deterministic-floats", base, base + seeds);
                 let out = Command::new("cargo")
                     .current_dir(sim_dir)
                     .env("MIRIFLAGS", &flags)
@@ -408,7 +408,7 @@ fn stress_replay(vdir: &Path, sim_dir: &Path, prof: Profile, prop: &str, seed: u
         return native;
     }
     let nseeds = 32;
-    let flags = format!("-Zmiri-many-seeds=0..{nseeds} -Zmiri-preemption-rate=0.05 -Zmiri-disable-isolation");
+    let flags = format!("-Zmiri-many-seeds=0..{nseeds} -Zmiri-preemption-rate=0.05 -Zmiri-deterministic-floats -Zmiri-disable-isolation");
     let out = Command::new("cargo")
         .current_dir(sim_dir)
         .env("MIRIFLAGS", &flags)
@@ -424,7 +424,7 @@ fn stress_replay(vdir: &Path, sim_dir: &Path, prof: Profile, prop: &str, seed: u
         if let (false, Some(n)) = (out.status.success(), failing) {
             let path = vdir.join("replay").join(format!("{prop}-seed{seed}-run{}.miri.txt", first.idx));
             let text = format!(
-                "# deterministic replay for property {prop} (scouted by the stress phase, reproduced under Miri seed {n})\n# diagnostic: {}\n# re-execute with /verif/check --replay <this file>, or directly:\ncd /verif/sim && MIRIFLAGS=\"-Zmiri-seed={n} -Zmiri-preemption-rate=0.05 -Zmiri-disable-isolation\" cargo +nightly miri run --offline --no-default-features -- miri --prop {prop} --trace-file {}\n# native (statistical) trace: {}\n",
+                "# deterministic replay for property {prop} (scouted by the stress phase, reproduced under Miri seed {n})\n# diagnostic: {}\n# re-execute with /verif/check --replay <this file>, or directly:\ncd /verif/sim && MIRIFLAGS=\"-Zmiri-seed={n} -Zmiri-preemption-rate=0.05 -Zmiri-deterministic-floats -Zmiri-disable-isolation\" cargo +nightly miri run --offline --no-default-features -- miri --prop {prop} --trace-file {}\n# native (statistical) trace: {}\n",
                 diag.chars().take(400).collect::<String>(),
                 mtrace.display(),
                 native.display()
@@ -701,8 +701,8 @@ pub fn check_main(args: &[String]) -> i32 {
             // many-seeds names the failing Miri seed; that one execution is the exact replay
             let failing: Option<u64> = d.split("FAILING SEED:").nth(1).and_then(|r| r.trim().split_whitespace().next()).and_then(|n| n.parse().ok());
             let flags = match failing {
-                Some(n) => format!("-Zmiri-seed={n} -Zmiri-preemption-rate=0.05"),
-                None => format!("-Zmiri-many-seeds={seed}..{} -Zmiri-preemption-rate=0.05", seed + miri_seeds),
+                Some(n) => format!("-Zmiri-seed={n} -Zmiri-preemption-rate=0.05 -Zmiri-deterministic-floats"),
+                None => format!("-Zmiri-many-seeds={seed}..{} -Zmiri-preemption-rate=0.05 -Zmiri-deterministic-floats", seed + miri_seeds),
             };
             let text = format!(
                 "# Miri engine failure for property {prop} (workload seed {w}, Miri seed {})\n# diagnostic: {d}\n# re-execute with /verif/check --replay <this file>, or directly:\ncd /verif/sim && MIRIFLAGS=\"{flags}\" cargo +nightly miri run --offline --no-default-features -- miri --prop {prop} --profile {} --seed {w}\n",
